@@ -28,6 +28,13 @@ def _exec_chunk(args):
         if kind == "hist":
             cfg, hist = payload
             out.append(pair.run_hist(cfg, hist, tid, props))
+        elif kind == "twin":
+            cfg, hist = payload
+            t1 = pair.run_hist(dict(cfg, memfs=False), hist, tid, props)
+            t2 = pair.run_hist(dict(cfg, memfs=True), hist, tid + 1000000, [p for p in props if p != "C16"])
+            t1["ev2"] = t2["ev"]
+            t1["hostTouched"] = Path("/nonexistent_cfdpv").exists()
+            out += [t1, t2]
         elif kind == "solo":
             cfg, side, ins = payload
             t = drivers.solo_replay(tid, cfg, side, ins)
@@ -36,8 +43,11 @@ def _exec_chunk(args):
         elif kind == "fn":
             name, kw = payload
             t = getattr(drivers, name)(tid=tid, **kw)
-            t["props"] = props
-            out.append(t)
+            if isinstance(t, list):          # differential drivers return several executions with their own property tags
+                out += t
+            else:
+                t["props"] = props
+                out.append(t)
         else:
             raise ValueError(kind)
     return out
@@ -100,7 +110,8 @@ class Run:
         return r
 
     # ---- schedules from TLC, executed on the real handlers ----
-    def schedules(self, name: str, cfgs: str, props: list[str], limit: int | None = None, **kw) -> int:
+    def schedules(self, name: str, cfgs: str, props: list[str], limit: int | None = None, twin: bool = False, **kw) -> int:
+        """twin: every schedule is executed twice, on the native and on a purely in-memory filestore (C16)."""
         kw.setdefault("maxhist", 120)
         r = models.run_model(self.wd, name, cfgs, record=True, seed=seed(), **kw)
         if not (r.completed or kw.get("simulate")) and "TLC-TIMEOUT" not in r.out:
@@ -109,7 +120,7 @@ class Run:
         if limit is not None and len(sch) > limit:
             sch = self.rng.sample(sch, limit)
         for cid, _status, hist in sch:
-            self.jobs.append(("hist", self.next_tid, props, (cfgs_by_id[cid], hist)))
+            self.jobs.append(("twin" if twin else "hist", self.next_tid, props, (cfgs_by_id[cid], hist)))
             self.next_tid += 1
         self.sched_stats[name] = len(sch)
         if kw.get("simulate") or limit is not None:
@@ -265,7 +276,9 @@ def replay_file(prop: str, path: str) -> int:
     """./check <prop> --replay <path>: re-issue the recorded inputs on the current tree, let TLC judge the new execution."""
     obj = json.loads(Path(path).read_text())
     t0 = obj["trace"]
-    if t0["kind"] == "pair":
+    if t0["kind"] == "pair" and "ev2" in t0:
+        t = _exec_chunk([("twin", 1, t0["props"], (t0["cfg"], t0["sched"]))])[0]
+    elif t0["kind"] == "pair":
         import pair
         t = pair.run_hist(t0["cfg"], t0["sched"], 1, t0["props"])
     else:
